@@ -94,7 +94,9 @@ impl BranchOpsTracker {
     pub fn push_chunk(&mut self, base: &BaseBranch, start: usize, end: usize) {
         assert!(self.valid_gauge);
 
-        let base_compressed_end = std::cmp::min(end, base.node.prefix_compressed() as usize);
+        // a chunk may start past the compressed separators: then none of it is compressed.
+        let base_compressed_end =
+            std::cmp::min(end, base.node.prefix_compressed() as usize).max(start);
 
         if start != base_compressed_end {
             let chunk = KeepChunk {
